@@ -37,7 +37,7 @@ STAGES = {
     "C08": [S("regress", "^TestC08Regress$|^TestC08MultiStream$|^TestC08AfterLimit$|^TestC08NetConnStream$"),
             S("limits", "^TestC08$", quick=250, thorough=2500, shards=(6, 16), timeout=("15m", "90m"), shrinktime="90s"),
             S("bombs", "^TestC08Bombs$", tiers=("thorough",))],
-    "C09": [S("regress", "^TestC09Regress$"),
+    "C09": [S("regress", "^TestC09Regress$|^TestC09NetConnClose$"),
             S("matrix", "^TestC09$", shards=(8, 16)),
             S("mixed", "^TestC09Mixed$", quick=3000, thorough=200000, shards=(2, 16))],
     "C10": [S("after-refusal", "^TestC10AfterRefusal$"),
